@@ -76,7 +76,23 @@ def r6(fx):
     for n in (11, 21):
         m = reg.Matrix([reg.Row([(x * 7 + y * 3) % 2 for x in range(n)]) for y in range(n)])
         dflt = 2 if n < 21 else 4
-        base = [list(r) for r in mvb(m, (n, n), 1, 0)]
+        raw = list(mvb(m, (n, n), 1, 0))
+        base = [list(r) for r in raw]
+        # every row handed out is a row of its own: an immutable one, or a mutable one that is not handed out again (a caller
+        # may keep the rows: list(matrix_iter(...)), zip(it, it))
+        mutable = [r for r in raw if not isinstance(r, (tuple, bytes, str))]
+        yield ob(f'matrix_iter_verbose size {n}: no mutable row object is handed out twice', len({id(r) for r in mutable}) == len(mutable),
+                 fx.fn('utils', 'matrix_iter_verbose'), got=f'{len(mutable)} mutable rows, {len({id(r) for r in mutable})} distinct objects', want='distinct objects (or tuples)')
+        raw2 = list(mi(_marker_matrix(n), (n, n), 2, 1))
+        mutable2 = [r for r in raw2 if not isinstance(r, (tuple, bytes, str))]
+        yield ob(f'matrix_iter size {n}: no mutable row object is handed out twice', len({id(r) for r in mutable2}) == len(mutable2),
+                 fn, got=f'{len(mutable2)} mutable rows, {len({id(r) for r in mutable2})} distinct objects', want='distinct objects (or tuples)')
+        # the unscaled, borderless grid is the classification decided cell by cell in R3
+        vals = [[(x * 7 + y * 3) % 2 for x in range(n)] for y in range(n)]
+        gb0, gb1 = _classifier(fx, it, genv, n, 0), _classifier(fx, it, genv, n, 1)
+        diff = [(y, x) for y in range(n) for x in range(n) if len(base) != n or len(base[y]) != n or base[y][x] != (gb1 if vals[y][x] else gb0)(y, x)]
+        yield ob(f'matrix_iter_verbose size {n} scale 1 border 0 = the cell-by-cell classification', not diff, fx.fn('utils', 'matrix_iter_verbose'),
+                 got=diff[:4] or 'equal', want='equal')
         for scale, s_eff in ((1, 1), (2, 2), (3, 3), (2.9, 2)):
             for border in (None, 0, 1, 3):
                 if (scale, border) == (1, 0):
@@ -344,16 +360,37 @@ def r8(fx):
     # alpha channels, including the two ends of the range (fully transparent = not painted, fully opaque)
     combos += [{'dark': (255, 0, 0, 0), 'light': '#fff'}, {'dark': '#000', 'light': '#ffffff00'}, {'dark': (0, 0, 255, 0.0), 'light': (255, 255, 255, 1.0)},
                {'dark': '#0000ff80', 'light': '#fff'}, {'dark': (0, 0, 0, 255), 'light': (255, 255, 0, 1.0)}, {'finder_dark': '#ff000000', 'light': '#fff'}]
+    # serialiser options that change how the paths are written (not what they paint): no line class, background drawn / not drawn;
+    # and module types left transparent beside a coloured quiet zone / light colour
+    combos += [{'dark_module': 'red', 'light': '#fff', '_opts': {'lineclass': None, '_sparse': True}}, {'dark_module': 'red', 'light': 'white', '_opts': {'lineclass': '', '_sparse': True}},
+               {'dark_module': 'red', 'light': 'white', '_opts': {'_sparse': True}},
+               {'dark_module': 'red', 'light': '#fff', '_opts': {'lineclass': None}}, {'dark_module': 'red', 'finder_dark': 'blue', 'light': 'yellow', '_opts': {'lineclass': ''}},
+               {'finder_dark': 'blue', 'light': '#fff', '_opts': {'svgclass': None, 'lineclass': None}},
+               {'light': 'white', 'quiet_zone': 'yellow', 'finder_dark': None}, {'light': 'white', 'quiet_zone': 'yellow', 'dark_module': None, 'timing_dark': None},
+               {'light': '#eee', 'quiet_zone': 'yellow'}, {'quiet_zone': 'yellow', 'dark': None, 'light': '#fff'}]
     for size, border in (((21, 21), None), ((11, 11), 1), ((45, 45), 0)):
         for kw in combos:
             if size[0] == 45 and not ({'alignment_dark', 'finder_dark'} & set(kw) or not kw):
                 continue
+            kw = dict(kw)
+            opts = dict(kw.pop('_opts', {}))
+            sparse = opts.pop('_sparse', False)
+            if sparse and size[0] != 21:
+                continue
             for scale in ((1, 2.5) if size[0] == 21 else (1,)):
                 ty = p09._typed(fx, size, kw)
+                if sparse:
+                    # as in a real symbol: one module type (the dark module) occurs exactly once, its path is the shortest of all
+                    dm_, dd_, dl_ = C(fx, 'TYPE_DARKMODULE'), C(fx, 'TYPE_DATA_DARK'), C(fx, 'TYPE_DATA_LIGHT')
+                    pm_ = render.pattern(*size)
+                    first_dark = next((r_, c_) for r_ in range(size[1]) for c_ in range(size[0]) if pm_[r_][c_])
+
+                    def ty(r, c, v, _fd=first_dark):
+                        return dm_ if (r, c) == _fd else (dd_ if v else dl_)
                 m = render.pattern(*size)
                 calls = []
                 try:
-                    rec, rs, _ = render.run(fx, it, 'write_svg', m, size, kw=dict(kw, scale=scale, border=border), typed=ty,
+                    rec, rs, _ = render.run(fx, it, 'write_svg', m, size, kw=dict(kw, scale=scale, border=border, **opts), typed=ty,
                                             extra={'matrix_to_lines': render.lines_source(m, calls)})
                     cm = p09._colormap(fx, it, size, kw, 'write_svg')
                     b = render.default_border(size) if border is None else border
@@ -372,7 +409,7 @@ def r8(fx):
                     why = f'raises {ex.name}'
                 except render.Bad as ex:
                     why = str(ex)
-                yield ob(f'SVG {kw} size={size[0]} scale={scale} border={border}', not why, fn, got=why or 'the symbol in its colours', want='the symbol in its colours')
+                yield ob(f'SVG {kw}{" " + str(opts) if opts else ""}{" (one module of the type)" if sparse else ""} size={size[0]} scale={scale} border={border}', not why, fn, got=why or 'the symbol in its colours', want='the symbol in its colours')
     for o in p09.r8(fx):
         if o.key.startswith('PPM'):
             yield o
